@@ -17,6 +17,7 @@ import (
 	"sort"
 	"strconv"
 	"strings"
+	"unicode/utf8"
 )
 
 // The model's integer line (spec/Values.tla).
@@ -96,6 +97,7 @@ type BoolReading struct {
 // TokAttr is one row of the table.
 type TokAttr struct {
 	Len   int64           `json:"len"`
+	Runes int64           `json:"runes"`
 	Sym   bool            `json:"sym"`
 	Int   IntReading      `json:"int"`
 	Flt   FltReading      `json:"flt"`
@@ -173,6 +175,9 @@ func init() {
 	add("", "A", "pattern")
 	add("", "ba", "pattern")
 	add("#eacute", "é", "len", "pattern") // 2 bytes, 1 character
+	add("#hello", "héllo", "len", "mb")     // 6 bytes, 5 characters
+	add("#nihon", "日本", "len", "mb", "pattern") // 6 bytes, 2 characters
+	add("#eacute", "é", "mb")
 	add("", "a.b", "pattern")
 	add("#nl", "\n", "pattern")
 	// property / discriminator field names of the object universe (map keys are tokens)
@@ -382,7 +387,7 @@ func modelInt(v int64) (int64, bool) {
 
 // ComputeAttr computes the attributes of a concrete (non symbolic) token with the standard library.
 func ComputeAttr(text string) (TokAttr, error) {
-	a := TokAttr{Len: int64(len(text)), Pat: map[string]bool{}, UToks: []UTok{}}
+	a := TokAttr{Len: int64(len(text)), Runes: int64(utf8.RuneCountInString(text)), Pat: map[string]bool{}, UToks: []UTok{}}
 	if v, err := strconv.ParseInt(text, 10, 64); err == nil {
 		m, ok := modelInt(v)
 		if !ok {
@@ -444,7 +449,7 @@ func SymText(t *TokenDef, e *Embedding) (string, bool) {
 // SymAttr gives the attributes of a symbolic token; they have to hold under every embedding
 // that can render it (checked by CheckSymbolic).
 func SymAttr(t *TokenDef) TokAttr {
-	a := TokAttr{Len: SymLen, Sym: true, Pat: map[string]bool{}, UCls: "nolex", UToks: []UTok{}}
+	a := TokAttr{Len: SymLen, Runes: SymLen, Sym: true, Pat: map[string]bool{}, UCls: "nolex", UToks: []UTok{}}
 	switch {
 	case t.SymN < 0:
 		// a minus sign: not a count
@@ -569,6 +574,9 @@ func GenStringsTLA() (string, error) {
 (* infrastructure error.                                                   *)
 (*                                                                         *)
 (*   len    byte length (what the SDK's length bounds measure)             *)
+(*   runes  number of characters (NOT what the bounds measure: kept so     *)
+(*          that tokens whose two counts differ can be placed around a     *)
+(*          bound)                                                         *)
 (*   sym    symbolic token: the decimal / %f rendering of an edge point of *)
 (*          the integer line; its text depends on the numeric embedding,   *)
 (*          its length is "at least 10" (generated length bounds are       *)
@@ -624,8 +632,8 @@ func GenStringsTLA() (string, error) {
 		if t.SymKind == "" && !safeID(t.Text) {
 			cmt = "  \\* text " + strings.ReplaceAll(strconv.QuoteToASCII(t.Text), "\\", "/")
 		}
-		fmt.Fprintf(&sb, "  [id |-> %s, len |-> %d, sym |-> %s, int |-> [ok |-> %s, v |-> %d], flt |-> [ok |-> %s, cls |-> %s, h |-> %d], bw |-> [some |-> %s, v |-> %s], pat |-> [%s], re |-> %s, ucls |-> %s, utoks |-> <<%s>>]%s%s\n",
-			tlaStr(t.ID), a.Len, tlaBool(a.Sym), tlaBool(a.Int.OK), a.Int.V, tlaBool(a.Flt.OK), tlaStr(a.Flt.Cls), a.Flt.H,
+		fmt.Fprintf(&sb, "  [id |-> %s, len |-> %d, runes |-> %d, sym |-> %s, int |-> [ok |-> %s, v |-> %d], flt |-> [ok |-> %s, cls |-> %s, h |-> %d], bw |-> [some |-> %s, v |-> %s], pat |-> [%s], re |-> %s, ucls |-> %s, utoks |-> <<%s>>]%s%s\n",
+			tlaStr(t.ID), a.Len, a.Runes, tlaBool(a.Sym), tlaBool(a.Int.OK), a.Int.V, tlaBool(a.Flt.OK), tlaStr(a.Flt.Cls), a.Flt.H,
 			tlaBool(a.BW.Some), tlaBool(a.BW.V), strings.Join(pats, ", "), tlaBool(a.Re), tlaStr(a.UCls), strings.Join(ut, ", "), sep, cmt)
 	}
 	sb.WriteString(">>\n\n")
